@@ -144,7 +144,11 @@ def gen_trace(recipe):
     return {'est': name, 'events': events}
   # ---- every other data-taking method on index patterns
   for (meth, size) in methods_for(name):
-    pats = recipe['patterns'].get(str(size), [])
+    pats = list(recipe['patterns'].get(str(size), []))
+    if size >= 2 and table_fn is not None and n // 3 >= 2 and n // 3 + size <= n:
+      # directed: the FIRST point of every tuple has whole-number coordinates, the others do not (1-based rows)
+      k3 = n // 3
+      pats.append([[1 + (r % k3)] + [k3 + 1 + ((r + c) % (n - k3)) for c in range(size - 1)] for r in range(3)])
     for T in pats:
       T = np.array(T, dtype=int) - 1            # TLC indices are 1-based rows of the store
       if T.max() >= n:
